@@ -388,12 +388,15 @@ def battery(pool, mpool, parse=True):
             continue
         rc = mpool[idx].rc
         reach = {c.hash() for c in RC.topo([rc])}
-        for rep in (0, 1):
-            h.update(o.hash)
+        h_rep = [hashlib.blake2b(digest_size=12), hashlib.blake2b(digest_size=12)]
+        # observed twice on the first arrival at a state (idempotence; longer observation sequences are the schedules' subject), once afterwards
+        for rep in ((0, 1) if parse else (0,)):
+            hx = h_rep[rep]
+            hx.update(o.hash)
             if o.hash != rc.hash():
                 probs.append(f'cell #{idx}: hash differs from the reference')
             for opts in bocfam.OPTION_SETS:
-                h.update(o.to_boc(**opts))
+                hx.update(o.to_boc(**opts))
             try:
                 default_boc = o.to_boc()
                 roots, _ = RB.decode(default_boc)
@@ -403,7 +406,7 @@ def battery(pool, mpool, parse=True):
                 # nothing else changes; a plain call afterwards is unaffected (no per-object state between calls)
                 for fl in (1, 2, 3):
                     fb = o.to_boc(flags=fl)
-                    h.update(fb)
+                    hx.update(fb)
                     if fb[:4] + fb[5:] != default_boc[:4] + default_boc[5:] or fb[4] != default_boc[4] | (fl << 3):
                         probs.append(f'cell #{idx}: to_boc(flags={fl}) does not differ from to_boc() exactly by the flags bits (result depends on earlier calls?)')
                 if o.to_boc() != default_boc:
@@ -413,12 +416,15 @@ def battery(pool, mpool, parse=True):
             for mode in ('arg', 'noarg'):
                 d = o.order({}) if mode == 'arg' else o.order()
                 keys = [c.hash for c in d]
-                h.update(b''.join(keys))
+                hx.update(b''.join(keys))
                 if set(keys) != reach or len(keys) != len(reach):
                     probs.append(f'cell #{idx}: order({"{}" if mode == "arg" else ""}) returns {len(keys)} cells, the cell has {len(reach)} '
                                  f'reachable cells (entries leaked between calls)' if len(keys) > len(reach) else
                                  f'cell #{idx}: order() misses cells')
-            h.update(repr(o).encode())
+            hx.update(repr(o).encode())
+        h.update(h_rep[0].digest())
+        if parse and h_rep[0].digest() != h_rep[1].digest():
+            probs.append(f'cell #{idx}: observing (hash / to_boc / order / repr) a second time gives other results than the first time')
     # parsing is a function of the input: the same immutable cells / bytes parse to the same values, now and whenever the
     # battery ran before in this process (whatever was parsed, edited or serialised in between)
     # (run on the first arrival at each canonical state: ~45 000 times per search, interleaved with every event kind)
@@ -427,10 +433,19 @@ def battery(pool, mpool, parse=True):
             base = _PARSE_BASE.setdefault(name, val)
             if val != base:
                 probs.append(f'parser result for the fixed input "{name}" differs from an earlier parse of the same input: {str(val)[:300]} vs {str(base)[:300]}')
+            if name == 'addresses' and (val[3][1] is not True or val[4][1:] != (True, True, True)):
+                probs.append(f'load_address: a value handed out earlier changed when another cell was read, or anycast info is on the wrong value: {val[3:]}')
+        # parsing leaves its input untouched: every input cell still is the cell the reference encoder wrote
+        for name, c in parse_inputs().items():
+            if hasattr(c, 'to_boc'):
+                snap = _PARSE_SNAP[name]
+                if (c.hash, lib_struct(c)) != snap or c.copy().hash != c.hash:
+                    probs.append(f'parsing changed its input: the cell tree "{name}" no longer is what it was (bits / references of a cell of the tree were modified)')
     return h.hexdigest(), probs
 
 
 _PARSE_INPUTS = {}
+_PARSE_SNAP = {}
 
 
 def parse_inputs():
@@ -440,6 +455,12 @@ def parse_inputs():
     from . import c17, c15, c14
     b, r = c17.enc_stack([['tuple', []], ['tuple', [c17.I(7)]], ['tuple', [c17.I(1), c17.I(2)]], c17.I(1 << 70), ['null']], False)
     _PARSE_INPUTS['vmstack'] = to_lib(RC.RCell(b, r))
+    # slices whose window is narrower than their cell (bits and references cut at both ends), in the alternative valid forms
+    b, r = c17.enc_stack([['slice', 1, 3, 1], ['tuple', [['slice', 1, 3, 1], c17.I(5)]], ['slice', 1, 0, 0]], True)
+    _PARSE_INPUTS['vmstack-slices'] = to_lib(RC.RCell(b, r))
+    acct = bytes(range(7, 39))
+    _PARSE_INPUTS['addr-plain'] = to_lib(RC.RCell(RBITS.addr_std(0, acct)))
+    _PARSE_INPUTS['addr-anycast'] = to_lib(RC.RCell(RBITS.addr_std(0, acct, (3, 5))))
     h = c15.headers()[2]
     m = dict(c15.placements(h, c15.inits()[32], c15.body_cell(40, 1, 0), 0))
     _PARSE_INPUTS['message'] = to_lib(next(iter(m.values())))
@@ -450,6 +471,9 @@ def parse_inputs():
     _PARSE_INPUTS['dict'] = to_lib(dict_root())
     _PARSE_INPUTS['tl'] = c14.ref_schema().encode({'@type': 'adnl.message.query', 'query_id': bytes(range(32)).hex(),
                                                    'query': {'@type': 'dht.ping', 'random_id': 0x1122334455667788}}, True)
+    for name, c in _PARSE_INPUTS.items():
+        if hasattr(c, 'to_boc'):
+            _PARSE_SNAP[name] = (c.hash, lib_struct(c))      # taken before anything was parsed
     return _PARSE_INPUTS
 
 
@@ -465,6 +489,14 @@ def parse_battery():
     inp = parse_inputs()
     out = {}
     out['vmstack'] = deep_repr(VmStack.deserialize(inp['vmstack'].begin_parse()))
+    out['vmstack-slices'] = deep_repr(VmStack.deserialize(inp['vmstack-slices'].begin_parse()))
+    # two encodings of one account, with and without anycast info: a value handed out earlier stays as it was returned
+    a1 = inp['addr-plain'].begin_parse().load_address()
+    r1 = deep_repr(a1)
+    a2 = inp['addr-anycast'].begin_parse().load_address()
+    r2 = deep_repr(a2)
+    a3 = inp['addr-plain'].begin_parse().preload_address()
+    out['addresses'] = (r1, r2, deep_repr(a3), ('earlier value now', deep_repr(a1) == r1), ('anycast', a1.anycast is None, a3.anycast is None, a2.anycast is not None))
     out['message'] = deep_repr(MessageAny.deserialize(inp['message'].begin_parse()))
     out['stateinit'] = deep_repr(StateInit.deserialize(inp['stateinit'].begin_parse()))
     out['currencies'] = deep_repr(CurrencyCollection.deserialize(inp['currencies'].begin_parse()))
@@ -475,6 +507,17 @@ def parse_battery():
 
 
 _PARSE_BASE = {}
+
+
+def lib_struct(c):
+    """the tree below a library cell as the objects hold it NOW (bits and reference lists read from the attributes, not from cached hashes)"""
+    out, stack, n = [], [c], 0
+    while stack and n < 400:
+        x = stack.pop()
+        n += 1
+        out.append((x.bits.to01(), len(x.refs), x.type_))
+        stack.extend(x.refs)
+    return tuple(out)
 
 
 def run_history(kind, hist):
@@ -501,6 +544,10 @@ def run_history(kind, hist):
                     'what': f'pool:{kindc}-changed-by:{ev[0]}'}
     return {'pool': pool, 'mpool': mpool, 'outcomes': outcomes}
 
+
+# operations that do not change the canonical form of the object they are called on: whether they were called is invisible in the pool
+NON_MUTATING = {'begin_parse', 'to_slice', 'copy', 'to_builder', 'preload_bits', 's_to_cell', 's_copy', 's_to_builder', 'end_cell', 'b_to_slice',
+                'parse_dict', 'parse_msg'}
 
 MEMO = {}   # per worker process: canonical state -> (battery digest, outcome of last event)
 
@@ -550,7 +597,7 @@ def case_history(rec, kind, hist, use_memo=True):
 
 
 def shard_bfs(rec, kind, depth, reverse, part=0, parts=1):
-    seen = {m_canon(model_initial(kind))}
+    seen = {(m_canon(model_initial(kind)), frozenset())}
     r0 = case_history(rec, kind, [])
     frontier = collections.deque([[]])
     digests = {}
@@ -581,8 +628,13 @@ def shard_bfs(rec, kind, depth, reverse, part=0, parts=1):
             canon, dig, _ = r
             digests.setdefault(canon, dig)
             level.setdefault(canon, len(hist) + 1)
-            if canon not in seen:
-                seen.add(canon)
+            # two histories are merged only if they reach the same canonical pool AND have called the same methods on the same objects
+            # (as a set; only the methods that leave their target's canonical form as it is matter - the others show in the pool):
+            # a canonical form alone merges [begin_parse, s_to_cell] with [begin_parse, copy], and state hidden inside the
+            # slice by its first to_cell() would never be exercised by the continuation explored from the other history
+            skey = (canon, frozenset((e[0], e[1]) for e in hist + [ev] if e[0] in NON_MUTATING))
+            if skey not in seen:
+                seen.add(skey)
                 rec.state((kind, canon))
                 if len(hist) + 1 >= 2:
                     rec.nontriv((kind, canon))
@@ -618,7 +670,7 @@ def finalize(merged):
 def shards(tier, seed):
     depth = 4 if tier == 'quick' else 5
     out = []
-    parts = 3
+    parts = 8           # the root has 8 events (4 per cell): one sub-tree per shard
     for kind in POOLS:
         for part in range(parts):
             out.append({'fn': 'shard_bfs', 'args': {'kind': kind, 'depth': depth, 'reverse': False, 'part': part, 'parts': parts}, 'prio': 2})
@@ -761,8 +813,9 @@ def shard_schedules(rec, kind, depth, length, part, parts):
     bases = sched_bases(kind, depth)
     for n, hist in enumerate(bases):
         if n % parts == part:
-            case_schedules(rec, kind, hist, length, True)             # few observers, long schedules
-            case_schedules(rec, kind, hist, length - 1, False)        # all observers, shorter schedules
+            ln = length if len(hist) <= 3 else length - 1             # the deepest base states of the thorough tier get one observation less
+            case_schedules(rec, kind, hist, ln, True)                 # few observers, long schedules
+            case_schedules(rec, kind, hist, ln - 1, False)            # all observers, shorter schedules
     rec.notes[f'sched-bases:{kind}:{depth}'] = len(bases)
     if part == 0:
         rec.sample({'pool': kind, 'base_history': bases[-1], 'schedules': f'all sequences of 2..{length} observations over (cell x {OBS_CELL_LEAN}) + Boc.deserialize, of 2..{length - 1} over (cell x {OBS_CELL})',
